@@ -22,6 +22,11 @@ namespace Alphabet
 def fromAscii (A : Alphabet) (b : UInt8) : Option Nat :=
   (A.fromTbl.find? (·.1 == b)).map (·.2)
 
+/-- `Symbol::from_char` (trait default): `if c.is_ascii() { from_ascii(c as u8) } else { Err }`;
+    `cp` is the Unicode scalar value of the character -/
+def fromChar (A : Alphabet) (cp : Nat) : Option Nat :=
+  if cp < 128 then A.fromAscii cp.toUInt8 else none
+
 /-- `Symbol::as_ascii` -/
 def asAscii (A : Alphabet) (a : Nat) : Option UInt8 :=
   (A.asTbl.find? (·.1 == a)).map (·.2)
